@@ -134,7 +134,7 @@ Definition exn_msg (nodes : wnodes) (s : wst) : message (list nsubset) :=
 Definition exn_univ : list pyv :=
   [PyV (VInt 4); PyV (VInt 20); PyV (VBytes [55;55;55;55]%N)] ++ map PyV exn_vals.
 
-Definition exn_wired := wire 13 exn_vals exn_links exn_T.
+Notation exn_wired := (wire 13 exn_vals exn_links exn_T).
 
 Example exn_wire_ok : exists nodes s, exn_wired = Ok (nodes, s) /\ x_next s = 13%N /\
   x_attrs s = [(1, 0, false); (2, 1, true); (2, 10, false); (4, 11, false)]%N.
@@ -143,26 +143,34 @@ Proof. eexists; eexists. split; [vm_compute; reflexivity|]. split; reflexivity. 
 (* an associated field (A12001 before 012001), a quality value linked by the bitmap to 012001 (index 2)
    and to a member of the delayed replication (index 4), a delayed replication with two repetitions,
    a fixed one; two subsets *)
+Example exn_sub_ok : forall nodes s, exn_wired = Ok (nodes, s) ->
+  nsubset_ok toy_repr (toy_leval exn_univ) (exn_sub nodes s).
+Proof.
+  intros nodes s E. vm_compute in E. injection E as <- <-.
+  split.
+  - split; [|split; vm_compute; reflexivity].
+    apply idx_ok_by_list. unfold idx_ok. vm_compute span. ex_crush.
+  - split; [vm_compute; reflexivity|]. split; [vm_compute; reflexivity|]. split; [|vm_compute; reflexivity].
+    cbn. repeat split; reflexivity.
+Qed.
+
+Example exn_pvals_ok :
+  (pval_line_ok nm_edition (toy_repr (PyV (VInt 4))) = true /\ toy_leval exn_univ (toy_repr (PyV (VInt 4))) = Ok (PyV (VInt 4))) /\
+  (pval_line_ok nm_edition (toy_repr (PyV (VInt 20))) = true /\ toy_leval exn_univ (toy_repr (PyV (VInt 20))) = Ok (PyV (VInt 20))) /\
+  (pval_line_ok nm_stop (toy_repr (PyV (VBytes [55;55;55;55]%N))) = true /\
+   toy_leval exn_univ (toy_repr (PyV (VBytes [55;55;55;55]%N))) = Ok (PyV (VBytes [55;55;55;55]%N))).
+Proof. repeat split; vm_compute; reflexivity. Qed.
+
 Example exn_ok : forall nodes s, exn_wired = Ok (nodes, s) ->
   nested_message_ok toy_repr (toy_leval exn_univ) (exn_msg nodes s).
 Proof.
-  intros nodes s E. vm_compute in E. injection E as <- <-.
+  intros nodes s E. pose proof (exn_sub_ok nodes s E) as S1. destruct exn_pvals_ok as (P1 & P2 & P3).
   split; [vm_compute; reflexivity|]. split; [vm_compute; reflexivity|].
-  cbv [exn_msg m_sections s_params nested_param_ok nested_td_ok].
-  assert (S1 : nsubset_ok toy_repr (toy_leval exn_univ)
-                 (exn_sub (WCons (WNoValue 204008) (WCons (WValue 0) (WCons (WValue 2) (WCons (WNoValue 204000)
-                   (WCons (WDelayed 101000 1 3 (WCons (WValue 4) (WCons (WValue 5) WNil)))
-                   (WCons (WValue 6) (WCons (WValue 7) (WCons (WFixed 101002 1 2 (WCons (WValue 8) (WCons (WValue 9) WNil)))
-                   (WCons (WValue 10) (WCons (WValue 11) (WCons (WValue 12) WNil)))))))))))
-                   (mkWst 13 [] 0 true false false (Some 0%N) None None
-                      [(1, 0, false); (2, 1, true); (2, 10, false); (4, 11, false)]%N
-                      [12; 11; 10; 9; 8; 7; 6; 5; 4; 3; 2; 0]%N false))).
-  { split.
-    - split; [|split; vm_compute; reflexivity].
-      apply idx_ok_by_list. unfold idx_ok. vm_compute span. ex_crush.
-    - split; [vm_compute; reflexivity|]. split; [vm_compute; reflexivity|]. split; [|vm_compute; reflexivity].
-      cbn. repeat split; reflexivity. }
-  ex_crush; try exact S1.
+  cbv [exn_msg m_sections s_params].
+  constructor; [constructor; [exact P1|constructor]|].
+  constructor; [constructor; [exact P2|constructor; [|constructor]]|].
+  - split; [discriminate|]. constructor; [exact S1|]. constructor; [exact S1|constructor].
+  - constructor; [constructor; [exact P3|constructor]|constructor].
 Qed.
 
 Example exn_roundtrip : forall nodes s, exn_wired = Ok (nodes, s) ->
@@ -194,4 +202,43 @@ Proof.
   split; [|split; [|split; [|split]]]; try (vm_compute; reflexivity).
   - repeat split; vm_compute; reflexivity.
   - apply idx_ok_by_list. unfold idx_ok. vm_compute span. ex_crush.
+Qed.
+
+(* no subset at all: both renderers emit one empty line for the template data
+   (''.split('\n') == ['']) and section_text_to_flat_json cannot split it at ' = ' *)
+Definition exz_flat : message (list fsubset) :=
+  mkMessage [75;69;89]%N [ mkSection 4 [PTemplate []]; mkSection 5 [PVal nm_stop (PyV (VInt 7))] ].
+Definition exz_nested : message (list nsubset) :=
+  mkMessage [75;69;89]%N [ mkSection 4 [PTemplate []]; mkSection 5 [PVal nm_stop (PyV (VInt 7))] ].
+
+Example exz_refuted :
+  sections_shape (m_sections exz_flat) = true /\
+  pval_line_ok nm_stop (toy_repr (PyV (VInt 7))) = true /\
+  toy_leval [PyV (VInt 7)] (toy_repr (PyV (VInt 7))) = Ok (PyV (VInt 7)) /\
+  flat_text_to_flat_json (toy_leval [PyV (VInt 7)]) (render_flat_text toy_repr exz_flat) = Err EValue /\
+  nested_text_to_flat_json (toy_leval [PyV (VInt 7)]) (render_nested_text toy_repr 3 exz_nested) = Err EValue /\
+  flat_json_of flat_td_values exz_flat = [[ITemplate []]; [IVal (PyV (VInt 7))]].
+Proof. repeat split; vm_compute; reflexivity. Qed.
+
+From PBK Require Import TextFmtWire TextFmtC09.
+
+Example exn_sub_wired : forall nodes s, exn_wired = Ok (nodes, s) -> nsubset_wired (exn_sub nodes s).
+Proof.
+  intros nodes s E. exists 13%N, exn_links, exn_T, s.
+  change (wire 13 exn_vals exn_links exn_T = Ok (nodes, s) /\ x_attrs s = x_attrs s /\ x_next s = 13%N).
+  split; [exact E|]. split; [reflexivity|].
+  vm_compute in E. injection E as <- <-. reflexivity.
+Qed.
+
+Example exn_wired_ok : forall nodes s, exn_wired = Ok (nodes, s) ->
+  nested_wired_message_ok toy_repr (toy_leval exn_univ) (exn_msg nodes s).
+Proof.
+  intros nodes s E. pose proof (exn_sub_ok nodes s E) as [T1 _]. destruct exn_pvals_ok as (P1 & P2 & P3).
+  pose proof (exn_sub_wired nodes s E) as W.
+  split; [vm_compute; reflexivity|]. split; [vm_compute; reflexivity|].
+  cbv [exn_msg m_sections s_params].
+  constructor; [constructor; [exact P1|constructor]|].
+  constructor; [constructor; [exact P2|constructor; [|constructor]]|].
+  - split; [discriminate|]. constructor; [split; [exact T1|exact W]|]. constructor; [split; [exact T1|exact W]|constructor].
+  - constructor; [constructor; [exact P3|constructor]|constructor].
 Qed.
